@@ -122,7 +122,7 @@ def roll_axis(self, axis, start=0, recursive=True, rank=None):
         raise ValueError('%s.roll_axis() rank %d is too small for object '
                          'shape %s' % (type(self).__name__, rank, self._shape_))
 
-    if len_shape == 0:
+    if rank == 0:
         rank = 1
 
     # Identify the axis to roll, which could be negative
@@ -194,7 +194,7 @@ def move_axis(self, source, destination, recursive=True, rank=None):
         raise ValueError('%s.move_axis() rank %d is too small for object '
                          'shape %s' % (type(self).__name__, rank, self._shape_))
 
-    if len_shape == 0:
+    if rank == 0:
         rank = 1
 
     # Identify the axes, which could be negative
@@ -203,8 +203,23 @@ def move_axis(self, source, destination, recursive=True, rank=None):
     if isinstance(destination, numbers.Integral):
         destination = (destination,)
 
+    for (name, axes) in (('source', source), ('destination', destination)):
+        for x in axes:
+            if x < -rank or x >= rank:
+                raise ValueError('%s.move_axis() %s axis out of range (%d,%d): '
+                                 '%d' % (type(self).__name__, name, -rank, rank,
+                                         x))
+
     source = tuple([x % rank for x in source])
     destination = tuple([x % rank for x in destination])
+
+    if len(source) != len(destination):
+        raise ValueError('%s.move_axis() source and destination must have the '
+                         'same number of elements' % type(self).__name__)
+
+    if (len(set(source)) != len(source) or
+        len(set(destination)) != len(destination)):
+        raise ValueError('%s.move_axis() repeated axis' % type(self).__name__)
 
     # No need to modify a shapeless object
     if not self._shape_:
